@@ -15,7 +15,7 @@ uint8_t g_va, g_vb;
 #include "source/array_list.c"
 #include "source/xml_parser.c"
 
-#define XGHOSTS() do { XML_GHOST_RESET(); g_on = false; g_j = nondet_size_t(); g_doc_off = nondet_size_t(); g_name_off = nondet_size_t(); } while (0)
+#define XGHOSTS() do { XML_GHOST_RESET(); g_on = false; g_slen = 1; g_sw = nondet_size_t(); g_j = nondet_size_t(); g_doc_off = nondet_size_t(); g_name_off = nondet_size_t(); } while (0)
 
 void h_advance_to_closing_tag(void) {
     struct aws_xml_parser *parser; struct aws_xml_node *node; struct aws_byte_cursor *out_body;
